@@ -35,7 +35,8 @@ type NormalEstimator struct {
   StdEstimator
   // parameters
   SigmaMin float64
-  // state
+  // state (per thread): sum of the weights, weighted mean and
+  // weighted sum of squared deviations from the mean
   sum_g []float64
   sum_m []float64
   sum_s []float64
@@ -91,16 +92,21 @@ func (obj *NormalEstimator) Initialize(p ThreadPool) error {
 
 func (obj *NormalEstimator) NewObservation(x, gamma ConstScalar, p ThreadPool) error {
   id := p.GetThreadId()
-  if gamma == nil {
-    x := x.GetFloat64()
-    obj.sum_m[id] += x
-    obj.sum_s[id] += x*x
-    obj.sum_g[id] += 1.0
+  g  := 1.0
+  if gamma != nil {
+    g = math.Exp(gamma.GetFloat64() - obj.gamma_max)
+  }
+  // update mean and sum of squared deviations (West's weighted version
+  // of Welford's algorithm); the difference E[x^2] - E[x]^2 of plain
+  // sums loses all digits if the mean is large compared to sigma
+  if g > 0.0 {
+    d := x.GetFloat64() - obj.sum_m[id]
+    w := obj.sum_g[id]
+    obj.sum_g[id] += g
+    obj.sum_m[id] += d*(g/obj.sum_g[id])
+    obj.sum_s[id] += d*d*(g*(w/obj.sum_g[id]))
   } else {
-    x := x.GetFloat64()
-    g := math.Exp(gamma.GetFloat64() - obj.gamma_max)
-    obj.sum_m[id] += g*x
-    obj.sum_s[id] += g*x*x
+    // also records a weight that is not a number
     obj.sum_g[id] += g
   }
   return nil
@@ -113,10 +119,17 @@ func (obj *NormalEstimator) updateEstimate() error {
   sum_g := 0.0
   sum_m := 0.0
   sum_s := 0.0
+  // merge the results of the threads
   for i := 0; i < len(obj.sum_m); i++ {
-    sum_m += obj.sum_m[i]
-    sum_s += obj.sum_s[i]
-    sum_g += obj.sum_g[i]
+    if obj.sum_g[i] > 0.0 {
+      d := obj.sum_m[i] - sum_m
+      w := sum_g
+      sum_g += obj.sum_g[i]
+      sum_m += d*(obj.sum_g[i]/sum_g)
+      sum_s += obj.sum_s[i] + d*d*(obj.sum_g[i]*(w/sum_g))
+    } else {
+      sum_g += obj.sum_g[i]
+    }
   }
   // without any observation of positive weight the estimate is
   // undefined (0/0), keep the current parameters
@@ -127,11 +140,8 @@ func (obj *NormalEstimator) updateEstimate() error {
     obj.sum_s = nil
     return nil
   }
-  s1 := sum_m/float64(sum_g)
-  s2 := sum_s/float64(sum_g)
-
-  mu    := NewScalar(obj.ScalarType(), s1)
-  sigma := NewScalar(obj.ScalarType(), math.Sqrt(s2 - s1*s1))
+  mu    := NewScalar(obj.ScalarType(), sum_m)
+  sigma := NewScalar(obj.ScalarType(), math.Sqrt(sum_s/sum_g))
 
   if math.IsNaN(sigma.GetFloat64()) || sigma.GetFloat64() < obj.SigmaMin {
     sigma.SetFloat64(obj.SigmaMin)
